@@ -190,8 +190,12 @@ func (b *Bank) Op(id uint64) OpSpec {
 	case "C06":
 		op.Kind, op.Type, op.Fault = "dec", b.pickValid(r).Name, "none"
 		op.Prefill = r.Chance(1, 5)
-		if r.Chance(1, 10) {
+		switch {
+		case roll < 10:
 			op.Fault = "garbage" // benign: bytes after the top-level STOP
+		case roll < 24:
+			// a decode that fails midway: what it created before failing is still that decode's alone
+			op.Fault = []string{"trunc", "trunc", "count", "zerotail", "code"}[r.Intn(5)]
 		}
 	case "C07", "C08", "C17":
 		switch {
@@ -205,14 +209,22 @@ func (b *Bank) Op(id uint64) OpSpec {
 			if r.Chance(1, 5) {
 				op.Buf, op.BufK = "short", 1+r.Intn(8)
 			}
-		case roll < 70:
+		case roll < 64:
 			op.Kind, op.Type, op.Fault = "dec", b.pickValid(r).Name, "none"
 			op.Prefill = r.Chance(1, 4)
+		case roll < 72:
+			// several messages, some damaged, decoded one after the other into the same destination
+			op.Kind, op.Type, op.Fault = "decseq", b.pickValid(r).Name, pickFault(r)
+			op.Omit = 2 + r.Intn(3) // number of messages
+			if op.Budget > 1500 {
+				op.Budget = 1500
+			}
 		case roll < 88:
 			op.Kind, op.Type, op.Fault = "dec", b.pickValid(r).Name, pickFault(r)
 			op.Prefill = r.Chance(1, 4)
-		case roll < 94 && b.Prof != "C08":
-			// calls on rejected definitions are part of every history
+		case roll < 94 && (b.Prof != "C08" || roll < 91):
+			// calls on rejected definitions are part of every history (in schedule worlds: a failing registration
+			// must release the registration lock and must not disturb the tasks around it)
 			s := b.rej[r.Intn(len(b.rej))]
 			op.Type = s.Name
 			op.Kind = []string{"size", "enc", "dec"}[r.Intn(3)]
@@ -479,6 +491,28 @@ func retargetLegacy(rs *RunSpec, b *Bank, r *model.Rng) {
 		}
 		out = append(out, st)
 	}
+	// storms: every task starts with the same setter (or another legacy control) at about the same time
+	if rs.Tasks > 1 && r.Chance(1, 2) {
+		want := []string{"setdepth", "setil", "nojit", "pretouch"}[r.Intn(4)]
+		var ids []uint64
+		for id := uint64(0); id < b.Size && len(ids) < 8; id++ {
+			if op := b.Op(id); op.Kind == "legacy" && op.Legacy == want {
+				ids = append(ids, id)
+			}
+		}
+		if len(ids) > 0 {
+			var pre []Step
+			for t := 0; t < rs.Tasks; t++ {
+				for k := 0; k < 2; k++ {
+					pre = append(pre, Step{Task: t, Op: ids[r.Intn(len(ids))]})
+				}
+			}
+			out = append(pre, out...)
+			for i := range rs.Sched.StartAt {
+				rs.Sched.StartAt[i] = int64(r.Intn(12))
+			}
+		}
+	}
 	for i := range out {
 		out[i].Slot = i
 	}
@@ -516,6 +550,10 @@ func deriveC08(rs *RunSpec, b *Bank, r *model.Rng) {
 	for id := uint64(0); id < b.Size; id++ {
 		op := b.Op(id)
 		byType[op.Type] = append(byType[op.Type], id)
+	}
+	var rejIDs []uint64 // calls on rejected definitions: a failing registration in the middle of the others
+	for _, sd := range b.rej {
+		rejIDs = append(rejIDs, byType[sd.Name]...)
 	}
 	var steady []uint64 // operations on types used in earlier rounds
 	rs.Rounds = 6 + r.Intn(7)
@@ -569,6 +607,9 @@ func deriveC08(rs *RunSpec, b *Bank, r *model.Rng) {
 				default:
 					st.Op = onCluster[r.Intn(len(onCluster))]
 				}
+				if len(rejIDs) > 0 && i > 0 && r.Chance(1, 12) {
+					st.Op = rejIDs[r.Intn(len(rejIDs))]
+				}
 				rs.Hist = append(rs.Hist, st)
 			}
 		}
@@ -594,8 +635,8 @@ func deriveC16(rs *RunSpec, b *Bank, r *model.Rng) {
 		for len(sharedOps) < nshared {
 			id := uint64(r.Intn(int(b.Size)))
 			op := b.Op(id)
-			if op.Kind == "enc" || op.Kind == "size" || (op.Kind == "dec" && op.Fault == "none") {
-				sharedOps = append(sharedOps, id)
+			if op.Kind == "enc" || op.Kind == "size" || op.Kind == "dec" {
+				sharedOps = append(sharedOps, id) // damaged messages too: a decoder must not write to its input either way
 			}
 		}
 		for t := 0; t < rs.Tasks; t++ {
